@@ -64,7 +64,18 @@ class CheckMixin:
         """Check if arg_type is an enum in the class `class_`."""
         if class_:
             class_enums = [enum.name for enum in class_.enums]
-            return arg_type.typename.name in class_enums
+            if arg_type.typename.name not in class_enums:
+                return False
+            # A name qualified with exactly the namespace of the class is the
+            # enum declared in that namespace, not the class's own enum of
+            # the same name (an unqualified name is, the class scope shadows).
+            qualifier = arg_type.typename.namespaces
+            if not qualifier or not class_.parent:
+                return True
+            in_namespace = [ns for ns in qualifier if ns
+                            ] == class_.parent.full_namespaces()[1:]
+            return not (in_namespace
+                        and self.is_global_enum(arg_type, class_))
         else:
             return False
 
